@@ -5,6 +5,7 @@ shrink_to_fit leaves capacity = max(size, N).
 -/
 import SvModel.Proofs.Append
 import SvModel.Proofs.Erase
+import SvModel.Proofs.GrowCalls
 
 namespace SvModel
 open Gen
@@ -100,6 +101,8 @@ theorem requestCapacity_sat (cfg : Cfg) (c request : Nat) (w : World α)
         (¬ request ≤ (w.hdr c).cap → (w'.hdr c).cap = newCapacity cfg.maxSize (w.hdr c).cap request ∧ (w'.hdr c).data = w.next))
       (fun _ w' => Strong w w') := by
   unfold requestCapacity
+  rw [requestCapacity_calls.1, requestCapacity_calls.2]
+  simp only [calcNewCapacity_checked, allocateBy_unchecked]
   rw [bind_run, getV_run]
   simp only []
   have e : guard_requestCapacity_0 { genv cfg (w.hdr c) with request := request } = decide (request ≤ (w.hdr c).cap) := rfl
